@@ -41,7 +41,7 @@ def xengines_table():
         if os.path.exists(p):
             ev = json.load(open(p))
         cov = ev.get('coverage', {})
-        rows.append('| %s | %s | %s | %s | %s | %s |' % (xid, e['name'], e['kind_free_text'].split(':', 1)[-1].strip()[:160], cov.get('states', '-'),
+        rows.append('| %s | %s | %s | %s | %s | %s |' % (xid, e['name'], e['kind_free_text'].rsplit('trace validation of ', 1)[-1].strip()[:160], cov.get('states', '-'),
                                                       cov.get('traces_validated_against_impl', '-'), ev.get('wall_s', '-')))
     return '\n'.join(rows)
 
